@@ -316,6 +316,21 @@ func (x *verifC07swRun) capJudge(cp *verifC07swCapture) {
 	}
 }
 
+// later runs a teardown in the background (at most a few at a time); runCase
+// joins them.
+func (x *verifC07swRun) later(f func()) {
+	if x.laterSem == nil {
+		x.laterSem = make(chan struct{}, 6)
+	}
+	x.laterSem <- struct{}{}
+	x.laterWG.Add(1)
+	go func() {
+		defer x.laterWG.Done()
+		defer func() { <-x.laterSem }()
+		f()
+	}()
+}
+
 // verifC07swFork is a switch booted from an image.
 type verifC07swFork struct {
 	x      *verifC07swRun
@@ -351,14 +366,26 @@ func (x *verifC07swRun) judgeImage(cp *verifC07swCapture, im *verifC07swImage,
 		x.t.Fatalf("verifC07sw: open image: %v", err)
 	}
 	fdb := &verifC07DB{inner: bk}
-	defer fdb.Close()
+	var s *Switch
+	// Teardown off the critical path: stopping a switch means stopping its
+	// mailboxes one after the other, each waiting on millisecond timers.
+	defer func() {
+		fs := s
+		x.later(func() {
+			if fs != nil {
+				_ = fs.Stop()
+			}
+			fdb.Close()
+		})
+	}()
 
 	vc.Count("swc_forks", 1)
 	if im.k > 0 && im.k < n {
 		vc.Count("swc_forks_mid_op", 1)
 	}
-	s, err := x.newSwitchOn(fdb)
+	s, err = x.newSwitchOn(fdb)
 	if err != nil {
+		s = nil
 		bad("restart_state", "switch-restart-failed", fmt.Sprintf("New: %v", err))
 		return
 	}
@@ -366,7 +393,6 @@ func (x *verifC07swRun) judgeImage(cp *verifC07swCapture, im *verifC07swImage,
 		bad("restart_state", "switch-restart-failed", fmt.Sprintf("Start: %v", err))
 		return
 	}
-	defer func() { _ = s.Stop() }()
 	x.barrierOn(s)
 	f := &verifC07swFork{x: x, handed: make([]int, len(x.circs))}
 
@@ -494,9 +520,16 @@ func (x *verifC07swRun) judgeImage(cp *verifC07swCapture, im *verifC07swImage,
 	}
 
 	// --- links start; the links replay what they have not got acked ----------
+	// (only the links of channels that carry a forwarded HTLC of the case.)
+	var inUse, outUse [2]bool
+	for _, c := range x.circs {
+		if c.forwarded {
+			inUse[c.inCh], outUse[c.ch] = true, true
+		}
+	}
 	up := [2]bool{}
 	for ch, o := range x.outs {
-		if o.status != 0 || !x.fr.Chance(7, 8) {
+		if o.status != 0 || !outUse[ch] || !x.fr.Chance(7, 8) {
 			continue
 		}
 		if err := s.AddLink(x.newLinkOn(s, f, ch)); err != nil {
@@ -521,7 +554,7 @@ func (x *verifC07swRun) judgeImage(cp *verifC07swCapture, im *verifC07swImage,
 	}
 	var inLinks [2]*verifC07swLink
 	for i, in := range x.ins {
-		if in.status != 0 {
+		if in.status != 0 || !inUse[i] {
 			continue
 		}
 		inLinks[i] = x.newLinkOn(s, f, -1-i)
